@@ -2,6 +2,7 @@ SPECIFICATION Spec
 CONSTANTS
   MaxLen = 4
   GuardMode = "all"
+  CacheBeforeGuard <- NoApis
   NormAfterGuard <- NoApis
   Classes <- CoreClasses
 INVARIANTS Confined TypeOK
